@@ -74,6 +74,7 @@ class ServerDriver:
         self.sockets = {}
         self.nested = None
         self.sd = False
+        self.hook = None        # [sends left, inner op]: see _op_hooked
         self._install_handlers()
 
     # ---- scripted handlers ----
@@ -218,17 +219,105 @@ class ServerDriver:
                 def send(self, pkt):
                     if not self.closed:
                         drv.trace.append(('Out', self.sid, wire(pkt.data)))
+                        if drv.hook is not None:
+                            return drv._hooked_send(super().send, pkt)
                     return super().send(pkt)
         else:
             class S(base):
                 async def send(self, pkt):
                     if not self.closed:
                         drv.trace.append(('Out', self.sid, wire(pkt.data)))
+                        if drv.hook is not None:
+                            return await drv._hooked_send_async(super().send, pkt)
                     return await super().send(pkt)
         s = S(self.sio.eio, eio)
         s.last_ping = None
         s.connected = True
         return s
+
+    # ---- re-entrancy at the send (Server/EmitNested.v) ----
+    def _hook_tick(self):
+        """Called after a recorded send while a hook is armed: the inner operation to run now, or None."""
+        h = self.hook
+        h[0] -= 1
+        if h[0] > 0:
+            return None
+        self.hook = None
+        return h[1]
+
+    async def _inner(self, o):
+        """The nested operation: another client's engine.io packet ('msg') or the loss of its
+        transport ('close'), processed from inside a send; contained like in `op`."""
+        self.trace.append(('NestedStart',))
+        try:
+            s = self.sockets.get(o[1])
+            if s is not None and not s.closed:
+                if o[0] == 'msg':
+                    await aw(s.receive(self.eio_packet.Packet(self.eio_packet.MESSAGE, o[2])))
+                elif o[0] == 'close':
+                    await aw(s.close(wait=False, abort=True, reason=o[2]))
+                    self.sio.eio.sockets.pop(o[1], None)
+                else:
+                    raise AssertionError('unknown nested op %r' % (o,))
+        except AssertionError:
+            raise
+        except BaseException as e:      # nothing may escape engine.io's containment
+            self.trace.append(('Escaped', coqio.exn_name(e)))
+        self.trace.append(('NestedEnd',))
+
+    def _hooked_send(self, send, pkt):
+        r = send(pkt)
+        inner = self._hook_tick()
+        if inner is not None:
+            self._run_nested(self._inner(inner))
+        return r
+
+    async def _hooked_send_async(self, send, pkt):
+        r = await send(pkt)
+        inner = self._hook_tick()
+        if inner is not None:
+            await self._inner(inner)
+        return r
+
+    async def _op_hooked(self, o):
+        """('emit_nested', event, data, to, room, skip, ns, n, inner): server.emit (no callback) during
+        which, from inside the n-th send that is really performed, `inner` = ('msg', eio, payload) |
+        ('close', eio, reason) is processed.  ('msg_hook', eio, payload, n, inner): the same while the
+        message of `eio` is being handled (the sends are those of its handlers' emits and of its ack).
+        The trace carries ('NestedStart',) / ('NestedEnd',) around the inner operation's effects; when
+        fewer than n sends happen the inner operation does not run at all.  n = 0: never."""
+        sio = self.sio
+        inner = o[-1]
+        n = o[-2]
+        self.hook = [n, inner] if n > 0 else None
+        try:
+            if o[0] == 'emit_nested':
+                _, ev, data, to, room, skip, ns, _n, _i = o
+                try:
+                    await aw(sio.emit(ev, _copy(data), to=to, room=room, skip_sid=skip, namespace=ns))
+                except BaseException as e:
+                    self.trace.append(('Raised', coqio.exn_name(e)))
+            elif o[0] == 'msg_hook':
+                s = self.sockets.get(o[1])
+                if s is not None and not s.closed:
+                    try:
+                        await aw(s.receive(self.eio_packet.Packet(self.eio_packet.MESSAGE, o[2])))
+                    except BaseException as e:
+                        self.trace.append(('Escaped', coqio.exn_name(e)))
+            else:
+                raise AssertionError('unknown op %r' % (o,))
+        finally:
+            self.hook = None
+        if self.cfg.get('serializer', 'default') == 'msgpack':
+            import msgpack
+            self.loads_table = []
+            for m in ([o] if o[0] == 'msg_hook' else []) + ([inner] if inner[0] == 'msg' else []):
+                key = m[2] if isinstance(m[2], (bytes, bytearray, str)) else b''
+                try:
+                    self.loads_table.append((key, True, msgpack.loads(m[2])))
+                except BaseException as e:
+                    self.loads_table.append((key, False, coqio.exn_name(e)))
+        return self.trace, self.loads_table
 
     async def op(self, o):
         """Execute one operation; returns (effects, json table)."""
@@ -236,6 +325,8 @@ class ServerDriver:
         self.loads_table = []
         sio = self.sio
         k = o[0]
+        if k in ('emit_nested', 'msg_hook'):
+            return await self._op_hooked(o)
         try:
             if k == 'eio_connect':
                 s = self._socket(o[1])
@@ -385,13 +476,16 @@ def _copy(v):
     return copy.deepcopy(v)
 
 
-def run_history(cfg, ops, mode='sync', coro=False):
-    """Returns (list of (effects, table) per op, final dump)."""
+def run_history(cfg, ops, mode='sync', coro=False, probe=None):
+    """Returns (list of (effects, table) per op, final dump).  `probe(driver, op)`, if given, is called
+    after every operation (read-only inspection of the real server's state)."""
     async def main():
         d = ServerDriver(dict(cfg, _sd=True) if any(o[0] == 'msg_sd' for o in ops) else cfg, mode, coro)
         out = []
         for o in ops:
             effs, tbl = await d.op(o)
+            if probe is not None:
+                probe(d, o)
             if o[0] == 'session_nested':
                 # model: the two blocks one after the other (no observable effect in between); if the
                 # session cannot be obtained both halves raise the same exception
